@@ -250,6 +250,7 @@ func NoCrashInputs(seed uint64, fuzz int) (*OlvmWorld, []HostileInput) {
 	g := NewGen(w, r)
 	g.Height = 6
 	in := g.crashTable()
+	in = append(in, g.bidCrashTable(len(in))...)
 	in = append(in, g.ethCrashTable()...)
 	in = append(in, olvmCrashTable(ow, r)...)
 	// seed some objects so that kinds referring to proposals / domains / requests have targets
@@ -358,7 +359,7 @@ func NoCrashChild(seed uint64, fuzz, from int, out *os.File) {
 // RunNoCrash is the parent: runs children in parallel over disjoint seeds, restarting a child
 // after the input that killed it, and classifies every abnormal end.
 func RunNoCrash(self string, seed uint64, seeds, fuzz, parallel int) (*Result, error) {
-	res := NewResult("nocrash", seed, "case = one input (crash-site table: correctly signed transactions with unknown / empty / other currency, negative amounts, nil optional parts, no signatures, plus raw byte strings; and JSON-field mutations of valid transactions of every kind, re-signed by the right keys) executed in a child process through CheckTx and inside a delivered block, followed by a probe SEND that must be admitted and succeed; monitors: child exit status (os.Exit from logger.Fatal, runtime panic), application closed by handlePanic, hang (timeout), probe failure; non-trivial = the input reached a handler (CheckTx or DeliverTx returned a result) and the probe ran; distinct = distinct input bytes")
+	res := NewResult("nocrash", seed, "case = one input (crash-site table: correctly signed transactions with unknown / empty / other currency, negative amounts, nil optional parts, no signatures, bid transactions with unknown asset types, malformed conversation ids and addresses, unknown decisions and whole conversations on the example asset, plus raw byte strings; and JSON-field mutations of valid transactions of every kind, re-signed by the right keys) executed in a child process through CheckTx and inside a delivered block, followed by a probe SEND that must be admitted and succeed; monitors: child exit status (os.Exit from logger.Fatal, runtime panic), application closed by handlePanic, hang (timeout), probe failure; non-trivial = the input reached a handler (CheckTx or DeliverTx returned a result) and the probe ran; distinct = distinct input bytes")
 	type job struct{ seed uint64 }
 	var mu sync.Mutex
 	var wg sync.WaitGroup
